@@ -31,6 +31,7 @@ def gen_value(rng, t):
     if t == 'string':
         return rng.choice(C.STRINGS + ['u v', 'n\x85e', 'p s'])
     return rng.choice(C.DATES + [datetime.datetime(2021, 3, 4, 5, 6, 7, 249), datetime.datetime(2021, 3, 4, 5, 6, 7, 100000),
+                                 datetime.datetime(2021, 3, 4, 5, 6, 7, rng.randrange(1000000)), datetime.datetime(2021, 3, 4, 5, 6, 7, rng.randrange(1000)),
                                  datetime.datetime(1, 1, 1), datetime.datetime(9999, 12, 31, 23, 59, 59, 999999)])
 
 
@@ -169,6 +170,20 @@ def run(ctx):
                 continue
             if any(l != l.rstrip() for l in t1.split('\n')):
                 ctx.fail(case, 'written text has trailing whitespace')
+            # ---- the written values are the given values (kind by kind, for the standard kinds)
+            for nm, d in fields.items():
+                w = parsed['fields'].get(nm, {})
+                for k, v in d.items():
+                    if k in C.KINDS and (k not in w or w[k] != v) and not (isinstance(v, float) and v != v):
+                        gv = v.get('value') if isinstance(v, dict) else v
+                        wv = w.get(k)
+                        wv = wv.get('value') if isinstance(wv, dict) else wv
+                        fnd = None
+                        import re as _re
+                        if isinstance(gv, str) and _re.match(r'^\d{4}-\d\d-\d\d$', gv) and wv == gv + ' 00:00:00':
+                            fnd = 'c09-date-only-bounds'
+                        ctx.fail(case, 'field %r kind %s: given %r, written %r' % (nm, k, v, w.get(k, '<absent>')),
+                                 finding=fnd)
             # ---- cycles
             path = os.path.join(work, 'c%d.tdda' % it)
             text = t1
